@@ -80,7 +80,7 @@ func runC13(c *core.Ctx) {
 	c.Analysed(facts.FuncName(nameMap))
 
 	isMapCall := func(v ssa.Value, mapper *ssa.Function, root *ssa.Function, idx int) bool {
-		call, ok := facts.ResolveFree(v).(*ssa.Call)
+		call, ok := facts.ResolveFree(resolveUp(v, root, 3)).(*ssa.Call)
 		if !ok || mapper == nil || call.Call.StaticCallee() != mapper || len(call.Call.Args) != 2 {
 			return false
 		}
@@ -101,7 +101,7 @@ func runC13(c *core.Ctx) {
 		}
 		c.Analysed(facts.FuncName(fn))
 		key := "sub." + name
-		bcs := backendCalls(fn)
+		bcs := backendCallsDeep(fn)
 		if len(bcs) == 0 {
 			c.Fail("C13.R1", key+"/delegate", fn.Pos(), "no backend call")
 			continue
@@ -138,14 +138,8 @@ func runC13(c *core.Ctx) {
 				}
 			}
 			// results: returned unchanged, except the listing which is filtered
-			if call, isCall := bc.Call.(*ssa.Call); isCall && bc.In == fn {
-				found := false
-				for _, r := range returnsOf(fn) {
-					if resultsFromCall(r, call) {
-						found = true
-					}
-				}
-				c.Check(found, "C13.R1", key+"/results", bc.Call.Pos(), "results returned unchanged", "results of the backend call are not returned unchanged")
+			if call, isCall := bc.Call.(*ssa.Call); isCall && (bc.In == fn || bc.In.Parent() == nil) {
+				c.Check(resultsReach(fn, call, 2), "C13.R1", key+"/results", bc.Call.Pos(), "results returned unchanged", "results of the backend call are not returned unchanged")
 			}
 		}
 		if name == "Repositories" {
@@ -216,9 +210,33 @@ func sliceHas(v ssa.Value, pred func(ssa.Value) bool) bool {
 				}
 			}
 		case *ssa.Call:
+			// a private helper: the slice continues through what it returns (and from
+			// there, through its parameters, to the arguments) — not through arguments
+			// the helper may ignore
+			if h := x.Call.StaticCallee(); h != nil && h.Blocks != nil && len(privateCallSites(h)) > 0 {
+				for _, r := range returnsOf(h) {
+					for i := range r.Results {
+						if walk(facts.RetVal(r, i), d+1) {
+							return true
+						}
+					}
+				}
+				return false
+			}
 			for _, a := range x.Call.Args {
 				if walk(a, d+1) {
 					return true
+				}
+			}
+		case *ssa.Parameter:
+			// a parameter of a private helper: the arguments its callers bind to it
+			if h := x.Parent(); h.Parent() == nil {
+				for _, site := range privateCallSites(h) {
+					for i, q := range h.Params {
+						if q == x && i < len(site.Common().Args) && walk(site.Common().Args[i], d+1) {
+							return true
+						}
+					}
 				}
 			}
 		case *ssa.Extract:
@@ -328,7 +346,7 @@ func checkC13Cursor(c *core.Ctx, fn *ssa.Function, bc backendCall, a ssa.Value, 
 func checkC13Listing(c *core.Ctx, fn *ssa.Function) {
 	recv := recvOf(fn)
 	n := 0
-	for _, f := range facts.WithAnon(fn) {
+	for _, f := range withHelpers(fn) {
 		for _, ci := range facts.CallsIn(f) {
 			if _, ok := isYieldCall(ci); !ok {
 				continue
@@ -349,7 +367,7 @@ func checkC13Listing(c *core.Ctx, fn *ssa.Function) {
 					_, isParam := facts.ResolveFree(call.Call.Args[0]).(*ssa.Parameter)
 					// arg1 = <recv string field> + const ending in "/"
 					pfxOK := false
-					if bo, isBo := facts.ResolveFree(call.Call.Args[1]).(*ssa.BinOp); isBo && bo.Op == token.ADD {
+					if bo, isBo := facts.ResolveFree(resolveUp(call.Call.Args[1], fn, 3)).(*ssa.BinOp); isBo && bo.Op == token.ADD {
 						if s, isS := facts.ConstString(bo.Y); isS && strings.HasSuffix(s, "/") && isRecvStringField(recv)(facts.ResolveFree(bo.X)) {
 							pfxOK = true
 						}
@@ -457,7 +475,7 @@ func checkC13CtxMap(c *core.Ctx, cm, nameMap *ssa.Function) {
 	// (a) a nameMap call whose argument is a load of a field named Resource and whose result is stored back to a Resource field, guarded by ResourceType == TypeRepository.
 	rewrote := false
 	var rewritePos token.Pos
-	for _, f := range facts.WithAnon(cm) {
+	for _, f := range withHelpers(cm) {
 		for _, ci := range facts.CallsIn(f) {
 			call, ok := ci.(*ssa.Call)
 			if !ok || call.Call.StaticCallee() != nameMap || len(call.Call.Args) != 2 {
@@ -494,7 +512,7 @@ func checkC13CtxMap(c *core.Ctx, cm, nameMap *ssa.Function) {
 	// (a2) must-pass-through: once a scope is known to be repository-typed, every
 	// path to the end of the callback passes through the rewriting store — no
 	// further condition may exempt a repository scope from the rewrite.
-	for _, f := range facts.WithAnon(cm) {
+	for _, f := range withHelpers(cm) {
 		for _, b := range f.Blocks {
 			for idx := range b.Succs {
 				isRepoEdge := false
